@@ -176,6 +176,17 @@ def child_main(conf, wd, faults, uid_base, tag, override=None):
             c.__dict__.update(override)
         state = {"faults": faults, "nopen": 0, "nreplace": 0, "log_fd": log_fd, "sizes": {}}
         install_failpoints(state)
+        if getattr(c, "clock_step", 0):
+            # virtual time: every time() call of the runner advances the clock,
+            # so the "save every 5 minutes" rule fires in the middle of small
+            # variations (deterministically, no wall clock involved)
+            import pyphysim.simulations.runner as RUNMOD
+            clock = {"t": 1.0e9}
+
+            def fake_time():
+                clock["t"] += c.clock_step
+                return clock["t"]
+            RUNMOD.time = fake_time
         r = CrashRunner(c, uid_base, log_fd, faults)
         r.set_results_filename(c.results_name)
         if c.partial_folder is not None:
@@ -285,13 +296,18 @@ def gen_conf(rng, big):
     if style == 3:
         c.results_name = "res"
     c.partial_folder = [None, "partial_results", "pr2"][int(rng.integers(0, 3))]
+    # virtual seconds per time() call of the runner (0 = real clock)
+    c.clock_step = 0 if big else int(rng.choice([0, 0, 45, 120]))
+    if c.clock_step and rng.random() < 0.5:
+        c.rep_max = int(rng.choice([5, 8, 12]))
     return c
 
 
 def conf_tag(c):
     return {"unpacked": {k: np.asarray(v).tolist() for k, v in c.unpacked.items()},
             "rep_max": c.rep_max, "delete_partial": c.delete_partial,
-            "results_name": c.results_name, "partial_folder": c.partial_folder}
+            "results_name": c.results_name, "partial_folder": c.partial_folder,
+            "virtual_clock_step": getattr(c, "clock_step", 0)}
 
 
 def nvariations(c):
@@ -440,7 +456,8 @@ def case_crash(ctx, rng, idx):
         ctx.tally("crash-points:" + kind)
         ok = decide(ctx, conf, wd, tag, kind, point)
         pos = "save" if kind != "rep" else ("first-rep" if point[0] == 1 else "later-rep")
-        ctx.sig(kind, "big" if big else conf.rep_max, conf.results_name.split(".")[-1],
+        ctx.sig(kind, "big" if big else conf.rep_max, bool(conf.clock_step),
+                conf.results_name.split(".")[-1],
                 pos, point[1] if kind != "write" else ("b=0" if point[1] == 0 else "b>0"),
                 conf.delete_partial)
         # double crash: crash again during the restart, then restart again
@@ -541,7 +558,7 @@ def classify(w):
 
 
 GENS = {
-    "crash": Gen(case_crash, 18, 1500),
+    "crash": Gen(case_crash, 14, 1500),
     "guard": Gen(case_guard, 24, 600),
 }
 MIN_EVALS = {"exactly-once": 300, "restart-completes": 150, "crash-injected": 150,
